@@ -358,6 +358,22 @@ def answerB (blocks : List (List Event)) (q : Query) (unfl : List Event := []) :
     -- some matched event lacks a by-field: the comparison grants the extra empty-key group (lib/e2ecmp.py).  The former
     -- deviation classes by-field-sparse / measure-field-sparse / measure-field-absent-from-dataset are repaired and gone.
     let scls := if must.any (fun e => bys.any (fun b => (e.get b).isNone)) then ["grant:empty-by-key"] else []
+    -- dc(f) where a matched event holds NUMERIC TEXT in f.  The specification counts distinct key texts ("7" and "007" are
+    -- two values).  (a) The column holds numeric text and no JSON number: class dc-over-numeric-text, REPAIRED (patch
+    -- c04-16: the query-time statistics fed the sketch the float64 image of the number, the ingest-time statistics the
+    -- text; lib/e2ecmp.py L_FIXED — no latitude, a disagreement is reported under the name the defect had).  (b) The
+    -- column holds numeric text AND JSON numbers among the matched events: label grant:dcmixed:<f>, the residual class
+    -- e2e/stats/dc-over-numbers-and-numeric-text — whether 5 and "5" are one value is not stated, and the segment writer
+    -- rewrites a numeric string that shares a block column with numbers as a number, so the record path sees another key
+    -- than the ingest-time statistics.  The label names the aggregate it may explain, nothing else of the answer.
+    let dcls := aggs.filterMap (fun a => match a with
+      | .dc f =>
+        let numText := must.any (fun e => match e.get f with | some (.str t) => (numericText? t).isSome | _ => false)
+        let number := must.any (fun e => match e.get f with | some (.int _) => true | some (.dec _ _) => true | _ => false)
+        if numText && number then some ("grant:dcmixed:" ++ f)
+        else if numText then some "dc-over-numeric-text" else none
+      | _ => none)
+    let scls := scls ++ dcls.eraseDups
     s!"kind=stats rows={",".intercalate rows} aggs={",".intercalate (aggs.map showAgg)} nmay={may.length} nmust={must.length} cls={",".intercalate (cls ++ scls)}"
   | [.tc span aggs by_] =>
     let showCells (bucket : Nat → Nat) : String :=
@@ -378,7 +394,26 @@ def answerB (blocks : List (List Event)) (q : Query) (unfl : List Event := []) :
 /-- the answer over a plain event list (all events taken as one block; used by Oracle/C18E.lean) -/
 def answer (evs : List Event) (q : Query) : String := answerB [evs] q
 
+/-- harness restriction shared with the Go side (e2e_suite.go `e2eCardTooSmall`, where the reason is written down): a
+dictionary limit `card=<n>` with 0 < n < 4 is not combined with a column that holds a boolean or a null in one event and a
+number or a string in another one — the writer's flush does not return on such a dataset, a state the production limit (501)
+cannot reach.  Decided on the tokens of the line (either layout's cfg). -/
+def cardTooSmall (args : List String) : Bool :=
+  let small := args.any (fun c => c.startsWith "card=" && (match (c.drop 5).toString.toNat? with
+    | some n => decide (0 < n ∧ n < 4) | none => false))
+  let kinds : List (String × Char) := args.flatMap (fun t =>
+    if !t.startsWith "ev/" then [] else
+    match t.splitOn "/" with
+    | [_, _, _, fs] => if fs == "-" then [] else (fs.splitOn ",").filterMap (fun kv => match kv.splitOn "~" with
+      | [k, v] => (v.toList.head?).map (fun c => (k, c))
+      | _ => none)
+    | _ => [])
+  let boolish := (kinds.filter (fun (_, c) => c == 'b' || c == 'z')).map (·.1)
+  let other := (kinds.filter (fun (_, c) => c == 'i' || c == 'd' || c == 's' || c == 'r')).map (·.1)
+  small && boolish.any (fun k => other.contains k)
+
 def e2e (args : List String) : String :=
+  if cardTooSmall args then "bad-op" else
   -- split at the markers H and Q
   let (cfg, r1) := args.span (· != "H")
   let (hist, r2) := (r1.drop 1).span (fun t => t != "Q" && t != "H2")
